@@ -276,6 +276,31 @@ fn scenarios_unordered(prop: &str, tier: &str) -> Vec<Scenario> {
                 }
             }
         }
+        if prop == "C05" {
+            // a start FAR outside the bounds (2.5 units, more than any step or radius here): whatever a planner
+            // roots its search at, the first segment of a returned path is one step long like every other
+            if let Some((spec, start)) = out_of_bounds_start_by(&b, 2.5) {
+                for pk in Pk::ALL {
+                    let mut sc = b.scenario(b.world_free(), b.params(pk, if pk == Pk::Prm { 1.6 } else { 1.0 }, 1.5, 0.0), &format!("C05/{kit}/free/{}/start-far-outside-bounds", pk.name()));
+                    sc.spec = spec.clone();
+                    sc.start = start.clone();
+                    out.push(sc);
+                }
+            }
+        }
+        if prop == "C01" {
+            // two start states, the FIRST marginally inside an obstacle, the second valid: the planners plan
+            // from the first, so the answer is InvalidStartState - not a path that begins with it
+            let l = crate::refspace::lvs(&b.spec);
+            let first = b.alphabet[b.start].clone();
+            let far = with_kit!(kit, farthest_state(&b, &first));
+            let ob = with_kit!(kit, marginal_ball_of(&b, &first, &far, 2.5 * l, 0.03 * l));
+            for pk in Pk::ALL {
+                let mut sc = b.scenario(b.world_named("first-start-marginally-inside", vec![ob.clone()]), b.params(pk, if pk == Pk::Prm { 1.6 } else { 1.0 }, 1.5, 0.0), &format!("C01/{kit}/first-start-marginally-inside/{}/second-start-valid", pk.name()));
+                sc.extra_starts = vec![b.alphabet[b.sub3[1] as usize].clone()];
+                out.push(sc);
+            }
+        }
         if prop == "C02" {
             // a start the checker accepts but the space bounds reject: the path still begins at exactly
             // that state (the planners must not "repair" the user's start)
@@ -486,21 +511,26 @@ fn out_of_bounds_goal(b: &Base) -> Option<(Spec, crate::kit::V)> {
 
 /// A bounded version of the base space together with a start just outside those bounds (None where the
 /// base space has no bounds to leave).
-fn out_of_bounds_start(b: &Base) -> Option<(Spec, crate::kit::V)> {
+pub(crate) fn out_of_bounds_start(b: &Base) -> Option<(Spec, crate::kit::V)> {
+    out_of_bounds_start_by(b, 0.25)
+}
+
+/// ... outside by `m` (R^n coordinate units; half of it for a bare angle).
+pub(crate) fn out_of_bounds_start_by(b: &Base, m: f64) -> Option<(Spec, crate::kit::V)> {
     use crate::kit::V;
     match (&b.spec, &b.alphabet[b.start]) {
         (Spec::Rv { dim, .. }, V::Rv(x)) => {
             // the box starts a quarter unit to the right of the start state
             let mut bounds = vec![(0.0, 4.0); *dim];
-            bounds[0] = (x[0] + 0.25, 4.0);
+            bounds[0] = (x[0] + m, 4.0);
             Some((Spec::Rv { dim: *dim, bounds: Some(bounds), frac: None }, V::Rv(x.clone())))
         }
-        (Spec::So2 { .. }, V::So2(a)) => Some((Spec::So2 { bounds: Some((a + 0.125, 3.0)), frac: None }, V::So2(*a))),
+        (Spec::So2 { .. }, V::So2(a)) => Some((Spec::So2 { bounds: Some((a + 0.5 * m, 3.0)), frac: None }, V::So2(*a))),
         (Spec::Cmp { parts, weights }, V::Cmp(c)) => {
             let mut parts = parts.clone();
             if let (Spec::Rv { dim, bounds, .. }, V::Rv(x)) = (&mut parts[0], &c[0]) {
                 let mut nb = vec![(0.0, 4.0); *dim];
-                nb[0] = (x[0] + 0.25, 4.0);
+                nb[0] = (x[0] + m, 4.0);
                 *bounds = Some(nb);
                 return Some((Spec::Cmp { parts, weights: weights.clone() }, V::Cmp(c.clone())));
             }
@@ -508,7 +538,7 @@ fn out_of_bounds_start(b: &Base) -> Option<(Spec, crate::kit::V)> {
         }
         (Spec::Se2 { weight, .. }, V::Cmp(c)) => {
             if let V::Rv(x) = &c[0] {
-                return Some((Spec::Se2 { weight: *weight, bounds: Some(vec![(x[0] + 0.25, 4.0), (0.0, 4.0), (-PI, PI)]) }, V::Cmp(c.clone())));
+                return Some((Spec::Se2 { weight: *weight, bounds: Some(vec![(x[0] + m, 4.0), (0.0, 4.0), (-PI, PI)]) }, V::Cmp(c.clone())));
             }
             None
         }
